@@ -11,6 +11,7 @@ use std::cell::{Cell, RefCell};
 thread_local! {
     static YIELD: Cell<Option<fn()>> = const { Cell::new(None) };
     static RUNNER_LOG: RefCell<Option<Vec<RunnerEv>>> = const { RefCell::new(None) };
+    static RUNNER_HOOK: Cell<Option<fn(RunnerEv)>> = const { Cell::new(None) };
 }
 
 /// Sets a function that is called at every yield point on the current thread (`None` = no-op).
@@ -45,7 +46,13 @@ pub fn take_runner_log() -> Vec<RunnerEv>
 {
     RUNNER_LOG.with(|l| l.borrow_mut().as_mut().map(std::mem::take).unwrap_or_default())
 }
-pub(crate) fn trace(ev: RunnerEv) { RUNNER_LOG.with(|l| if let Some(v) = l.borrow_mut().as_mut() { v.push(ev); }); }
+/// Sets a function that receives every runner event on this thread as it happens (`None` = off).
+pub fn set_runner_hook(f: Option<fn(RunnerEv)>) { RUNNER_HOOK.with(|h| h.set(f)); }
+pub(crate) fn trace(ev: RunnerEv)
+{
+    if let Some(f) = RUNNER_HOOK.with(|h| h.get()) { f(ev); }
+    RUNNER_LOG.with(|l| if let Some(v) = l.borrow_mut().as_mut() { v.push(ev); });
+}
 
 //-------------------------------------------------------------------------------------------------------------------
 
